@@ -24,8 +24,11 @@
 //        Correct: the closed connection is noticed BEFORE anything is sent; the POST goes
 //                 out on a new connection and returns 200.
 //        Defect : the POST throws; S never saw a byte of it (1 connection accepted in all).
-//   4. c.get("/third") after S closed the connection of 3 the same way (no retries):
-//        Correct: 200 on a new connection.  Defect: throws.
+//   4. 300 ms pause, then c.get("/third") without retries. On a repaired tree this is a
+//      second round (S answered /second on connection #1 and closed it the same way):
+//        Correct: 200 on a new connection (#2).  Defect: throws.
+//      (On the unmodified tree the failure in 3 evicted the cache entry, so 4 passes there;
+//      the DEFECT line comes from step 3.)
 //
 // exit 0 + "OK" when correct, exit 1 + "DEFECT: ..." when the defect manifests,
 // exit 2 on a harness problem.
